@@ -72,19 +72,25 @@ func readType(t *sysl.Type) tyUse {
 	u.Opt = t.Opt
 	u.Attrs, u.Patterns = readAttrs(t.Attrs)
 	inner := t
-	switch x := t.Type.(type) {
-	case *sysl.Type_Sequence:
-		u.Seq, inner = true, x.Sequence
-	case *sysl.Type_Set:
-		u.Seq, inner = true, x.Set
-	case *sysl.Type_List_:
-		u.Seq, inner = true, x.List.Type
-	}
-	if inner == nil {
-		return u
-	}
-	if inner != t {
-		// attributes/optionality of the element are folded in
+	// "name(0..5) <: sequence of X" compiles to list{sequence{X}}: unwrap every collection
+	// level, folding the attributes and optionality found on the way.
+	for depth := 0; depth < 4 && inner != nil; depth++ {
+		var next *sysl.Type
+		switch x := inner.Type.(type) {
+		case *sysl.Type_Sequence:
+			next = x.Sequence
+		case *sysl.Type_Set:
+			next = x.Set
+		case *sysl.Type_List_:
+			if x.List != nil {
+				next = x.List.Type
+			}
+		}
+		if next == nil {
+			break
+		}
+		u.Seq = true
+		inner = next
 		a2, p2 := readAttrs(inner.Attrs)
 		for k, v := range a2 {
 			if _, ok := u.Attrs[k]; !ok {
@@ -96,12 +102,18 @@ func readType(t *sysl.Type) tyUse {
 		}
 		u.Opt = u.Opt || inner.Opt
 	}
+	if inner == nil {
+		return u
+	}
 	switch x := inner.Type.(type) {
 	case *sysl.Type_Primitive_:
 		u.Prim = x.Primitive.String()
 	case *sysl.Type_TypeRef:
 		if x.TypeRef != nil && x.TypeRef.Ref != nil {
-			u.Ref = append([]string{}, x.TypeRef.Ref.Path...)
+			// the compiler leaves %XX escapes in some reference paths (query parameters)
+			for _, e := range x.TypeRef.Ref.Path {
+				u.Ref = append(u.Ref, unesc(e))
+			}
 			if x.TypeRef.Ref.Appname != nil && len(x.TypeRef.Ref.Appname.Part) > 0 {
 				// "App.Type" spelled references: keep only the type path
 				_ = x
